@@ -22,6 +22,45 @@ SIGNED = T.dict(_open=True, content=T.tuple(T.const("signedData"), T.dict(
     signature=T.opaque("signature"))))
 
 
+skey = _m.skey
+
+
+def det_bytes(e, st, fname, arg, lo, hi, fixed=None):
+    """deterministic function `fname` from structural content to bytes"""
+    memo = e.__dict__.setdefault("_det_memo", {})
+    k = (fname, skey(e, st, arg))
+    if k not in memo:
+        if fixed is not None:
+            memo[k] = (BytesV([("int", z3.BitVec(e.fresh(fname), 8 * fixed), fixed)]), [])
+        else:
+            memo[k] = e.sym_bytes(e.fresh(fname), lo, hi)
+    v, cs = memo[k]
+    for c in cs:
+        st = st.assume(c)
+    return st, v
+
+
+def x_sha256(e, st, args, kwargs):
+    e.used_assumptions.add("hashlib.sha256: a deterministic function from the hashed bytes to 32 bytes (no collision-freeness assumed)")
+    o = Opaque("sha256", _m._ident(e, "sha256", "sha"))
+    g = dict(st.ghost)
+    g["sha:" + str(o.ident)] = (args[0] if args else BytesV([]),)
+    yield st._clone(ghost=g), o
+
+
+def h_sha256(e, st, o, name, args, kwargs):
+    cur = st.ghost["sha:" + str(o.ident)][0]
+    if name == "update":
+        g = dict(st.ghost)
+        g["sha:" + str(o.ident)] = (e.bytes_concat(cur, args[0]) if cur.segs else args[0],)
+        yield st._clone(ghost=g), NONE
+    elif name == "digest":
+        s1, v = det_bytes(e, st, "sha256", cur, 32, 32, fixed=32)
+        yield s1, v
+    else:
+        raise Unsupported(f"sha256.{name}")
+
+
 def h_sec_coder(e, st, o, name, args, kwargs):
     e.used_assumptions.add("security coder (asn1tools OER): decode returns some EtsiTs103097Data-Signed value or raises; encode_* are deterministic functions recorded in ghost logs")
     if name == "decode_etsi_ts_103097_data_signed":
@@ -35,13 +74,30 @@ def h_sec_coder(e, st, o, name, args, kwargs):
         s1 = st
         for c in cs:
             s1 = s1.assume(c)
-        yield s1.ghost_append("tbs_encoded", TupleV([args[0], v])), v
+        # snapshot of the header field names at the moment of encoding (what the signature will cover)
+        keys = None
+        if isinstance(args[0], Ref) and s1.obj(args[0]).kind == "dict":
+            for k, p, x in s1.obj(args[0]).items:
+                if isinstance(k, StrV) and k.s == "headerInfo" and isinstance(x, Ref) and s1.obj(x).kind == "dict":
+                    if all(isinstance(k2, StrV) and z3.is_true(p2) for k2, p2, _ in s1.obj(x).items):
+                        keys = sorted(k2.s for k2, _, _ in s1.obj(x).items)
+        if keys is not None:
+            s1, kl = s1.alloc(Obj(None, "list", None, [StrV(k) for k in keys]))
+            yield s1.ghost_append("tbs_encoded", TupleV([args[0], v, kl])), v
+        else:
+            yield s1.ghost_append("tbs_encoded", TupleV([args[0], v])), v
     elif name == "encode_etsi_ts_103097_data_signed":
         v, cs = e.sym_bytes(e.fresh("secured_bytes"), 0, 4000)
         s1 = st
         for c in cs:
             s1 = s1.assume(c)
         yield s1.ghost_append("secured", TupleV([args[0], v])), v
+    elif name in ("encode_etsi_ts_103097_certificate", "encode_ToBeSignedCertificate"):
+        s1, v = det_bytes(e, st, name, args[0], 0, 4000)
+        if name == "encode_ToBeSignedCertificate" and not e.spec_mode:
+            s1 = s1.ghost_append("tbs_cert_encoded", TupleV([args[0], v]))
+        yield s1, v
+        yield st, RaiseV(e.exc("Exception", "encode error"))
     else:
         raise Unsupported(f"security coder .{name}")
 
@@ -50,7 +106,8 @@ def h_backend(e, st, o, name, args, kwargs):
     e.used_assumptions.add("ECDSA back end: verify_with_pk returns an arbitrary boolean (sig_ok), recorded with its arguments")
     if name == "verify_with_pk":
         b = z3.Bool(e.fresh("sig_ok"))
-        yield st.ghost_append("sig_checks", TupleV([kwargs.get("data", args[0] if args else NONE), kwargs.get("signature", NONE), kwargs.get("pk", NONE), b])), b
+        a3 = [kwargs.get(k, args[i] if len(args) > i else NONE) for i, k in enumerate(("data", "signature", "pk"))]
+        yield st.ghost_append("sig_checks", TupleV(a3 + [b])), b
     else:
         raise Unsupported(f"backend.{name}")
 
@@ -64,7 +121,10 @@ def _ticket(e, st, base):
 
 def h_cert_library(e, st, o, name, args, kwargs):
     e.used_assumptions.add("CertificateLibrary seen from VerifyService: lookups return an arbitrary ticket or None (the store invariant is C09's)")
-    if name in ("verify_sequence_of_certificates", "get_authorization_ticket_by_hashedid8"):
+    if name == "get_ca_certificate_by_hashedid3":
+        s1, t = _ticket(e, st, "ca_cert")
+        yield s1, Opt(z3.Bool(e.fresh("ca_absent")), t)
+    elif name in ("verify_sequence_of_certificates", "get_authorization_ticket_by_hashedid8"):
         s1, t = _ticket(e, st, "ticket")
         absent = z3.Bool(e.fresh("ticket_absent"))
         yield s1.ghost_append("ticket_lookups", TupleV([StrV(name), args[0], Opt(absent, t)])), Opt(absent, t)
@@ -82,15 +142,149 @@ def h_certificate(e, st, o, name, args, kwargs):
     elif name == "as_hashedid8":
         yield st, BytesV([("int", z3.BitVec(f"hashedid8.{o.ident}", 64), 8)])
     elif name == "sign_message":
-        yield st.ghost_append("signed_with", TupleV([o, args[1]])), Opaque("signature", _m._ident(e, "signature", "sig"))
+        sig = Opaque("signature", _m._ident(e, "signature", "sig"))
+        yield st.ghost_append("signed_with", TupleV([o, args[1], sig])), sig
     elif name == "get_list_of_its_aid":
         raise Unsupported("certificate.get_list_of_its_aid (model)")
     else:
         raise Unsupported(f"certificate .{name}")
 
 
+CERT_DICT = T.dict(_open=True, issuer=T.tuple(T.strs("self", "sha256AndDigest", "sha384AndDigest"), T.bytes_n(8)))
+_CS = z3.DeclareSort("Obj_cert")
+_BV64 = z3.BitVecSort(64)
+F_VERIFIES = z3.Function("cert.verifies", _CS, z3.BoolSort())
+F_DIGEST = z3.Function("cert.hashedid8", _CS, _BV64)
+F_ISS_KIND = z3.Function("cert.issuer_kind", _CS, z3.IntSort())
+F_ISS_DIGEST = z3.Function("cert.issuer_digest", _CS, _BV64)
+F_HAS_ISSUER = z3.Function("cert.has_issuer_attr", _CS, z3.BoolSort())
+F_ISSUER = z3.Function("cert.issuer_attr", _CS, _CS)
+
+
+def _bits64(e, st, b):
+    """the 64-bit value of an 8-byte bytes value"""
+    if isinstance(b, BytesV) and len(b.segs) == 1 and b.segs[0][0] == "int" and b.segs[0][2] == 8:
+        t = b.segs[0][1]
+        return t if t.size() == 64 else z3.Extract(63, 0, t)
+    raise Unsupported("certificate digest that is not a plain 8-byte value")
+
+
+def fresh_cert(e, st, base="stored_cert"):
+    """an opaque certificate object. Everything the library sees of it is a FUNCTION OF ITS IDENTITY (uninterpreted):
+    verify(), as_hashedid8(), the issuer field of its dictionary and its issuer attribute - so two references to the
+    same object agree on all of them."""
+    return st, Opaque("cert", z3.Const(e.fresh(base), _CS))
+
+
+def _store_initial(e, st, o, key):
+    """initial content of a certificate store at a key the path did not touch, as uninterpreted functions of the key's
+    value (per store and havoc epoch): present or not, and if present some certificate whose digest is that key - the
+    representation invariant store_wf, proved to be preserved by every mutator, used as induction hypothesis"""
+    if key is NONE:
+        return z3.BoolVal(False), NONE
+    if not isinstance(key, BytesV) or e.bytes_const_len(key) != 8:
+        raise Unsupported(f"certificate store looked up with a key that is not an 8-byte digest: {key}")
+    k = e.bytes_as_bv(key)
+    tag = f"{o.ident}@{_m._map_epoch(st, o)}"
+    has = z3.Function(f"store.has0[{tag}]", _BV64, z3.BoolSort())
+    val = z3.Function(f"store.cert0[{tag}]", _BV64, _CS)
+    fact = F_DIGEST(val(k)) == k
+    if not any(fact.eq(x) for x in e.late_axioms):
+        e.late_axioms.append(fact)
+    return has(k), Opaque("cert", val(k))
+
+
+def h_cert_dict(e, st, o, name, args, kwargs):
+    from pyvc.values import SymStr
+    if name == "__getitem__" and isinstance(args[0], StrV) and args[0].s == "issuer":
+        yield st, TupleV([SymStr(F_ISS_KIND(o.ident)), BytesV([("int", F_ISS_DIGEST(o.ident), 8)])])
+    else:
+        raise Unsupported(f"certificate dictionary of an opaque certificate .{name}({args[0].s if args and isinstance(args[0], StrV) else ''})")
+
+
+def h_cert(e, st, o, name, args, kwargs):
+    e.used_assumptions.add("Certificate objects seen from the CertificateLibrary: verify(), as_hashedid8(), the issuer field and the issuer "
+                           "attribute are uninterpreted functions of the object's identity (the contract of the real "
+                           "Certificate.verify is proved separately)")
+    if name == "verify":
+        yield st, F_VERIFIES(o.ident)
+    elif name == "as_hashedid8":
+        yield st, BytesV([("int", F_DIGEST(o.ident), 8)])
+    elif name == "get_issuer_hashedid8":
+        kind = F_ISS_KIND(o.ident)
+        c_self = kind == e.str_id("self")
+        c_dig = kind == e.str_id("sha256AndDigest")
+        if e.feasible(st.pc, c_dig):
+            yield st.assume(c_dig), BytesV([("int", F_ISS_DIGEST(o.ident), 8)])
+        if e.feasible(st.pc, c_self):
+            yield st.assume(c_self), NONE
+        other = z3.And(z3.Not(c_self), z3.Not(c_dig))
+        if e.feasible(st.pc, other):
+            yield st.assume(other), RaiseV(e.exc("ValueError", "Unknown issuer type"))
+    else:
+        raise Unsupported(f"cert .{name}")
+
+
+def h_cert_class(e, st, o, name, args, kwargs):
+    """Certificate.from_dict(certificate=d, issuer=i): a new certificate object over (a copy of) d with issuer attribute i
+    (None if i is falsy); its digest is a fixed function of the content of d"""
+    from pyvc.values import SymStr
+    if name == "from_dict":
+        d = kwargs.get("certificate", args[0] if args else None)
+        iss = kwargs.get("issuer", args[1] if len(args) > 1 else NONE)
+        s1, c = fresh_cert(e, st, "cert_from_dict")
+        tup = [x for k, p, x in st.obj(d).items if isinstance(k, StrV) and k.s == "issuer"][0]
+        kind = tup.items[0]
+        kterm = kind.term if isinstance(kind, SymStr) else e.str_id(kind.s)
+        memo = e.__dict__.setdefault("_digest_of_dict", {})
+        dg = memo.setdefault(skey(e, st, d), z3.BitVec(e.fresh("digest_of_dict"), 64))
+        facts = [F_ISS_KIND(c.ident) == kterm, F_DIGEST(c.ident) == dg]
+        if isinstance(tup.items[1], BytesV):
+            facts.append(e.truth(st, e.eq(st, BytesV([("int", F_ISS_DIGEST(c.ident), 8)]), tup.items[1])))
+        if isinstance(iss, Opt):
+            facts.append(F_HAS_ISSUER(c.ident) == z3.Not(iss.isnone))
+            facts.append(z3.Implies(z3.Not(iss.isnone), F_ISSUER(c.ident) == iss.val.ident))
+        elif isinstance(iss, Opaque):
+            facts += [F_HAS_ISSUER(c.ident), F_ISSUER(c.ident) == iss.ident]
+        else:
+            facts.append(z3.Not(F_HAS_ISSUER(c.ident)))
+        for f in facts:
+            if z3.is_false(f):
+                raise Unsupported(f"from_dict model: contradictory fact about a fresh object ({[str(x)[:80] for x in facts]}; issuer field {tup.items})")
+        e.late_axioms.extend(facts)
+        yield s1, c
+    else:
+        raise Unsupported(f"Certificate.{name}")
+
+
+def setup_library(e):
+    setup(e)
+    e.const_overrides[("flexstack.security.certificate_library", "Certificate")] = Opaque("cert_class")
+    keyed = _m.make_keyed_map_handler(None, initial=_store_initial)
+
+    def h_certmap(e2, st, o, name, args, kwargs):
+        if name == "__contains__" and args and args[0] is NONE:
+            # the stores are keyed by 8-byte digests (store_wf): None is never a key
+            yield st, z3.BoolVal(False)
+            return
+        yield from keyed(e2, st, o, name, args, kwargs)
+    h_certmap.initial = _store_initial
+    e.opaque_handlers.update({"cert": h_cert, "cert_class": h_cert_class, "cert_dict": h_cert_dict, "certmap": h_certmap})
+    orig = e.opaque_attr
+
+    def attr(st, o, name):
+        if o.typ == "cert" and name == "certificate":
+            return Opaque("cert_dict", o.ident)
+        if o.typ == "cert" and name == "issuer":
+            return Opt(z3.Not(F_HAS_ISSUER(o.ident)), Opaque("cert", F_ISSUER(o.ident)))
+        return orig(st, o, name)
+    e.opaque_attr = attr
+
+
 def setup(e):
     e.const_overrides[("flexstack.security.certificate", "SECURITY_CODER")] = Opaque("sec_coder")
+    e.external_handlers["hashlib.sha256"] = x_sha256
+    e.opaque_handlers["sha256"] = h_sha256
     e.opaque_handlers.update({"sec_coder": h_sec_coder, "ecdsa_backend": h_backend, "cert_library": h_cert_library,
                               "certificate": h_certificate})
     orig = e.opaque_attr
@@ -98,7 +292,16 @@ def setup(e):
     def attr(st, o, name):
         if o.typ == "certificate" and name == "certificate":
             return o.data["certificate"]
+        if o.typ == "cert_library" and name == "own_certificates":
+            return Opaque("own_store", o.ident)
         return orig(st, o, name)
+
+    def h_own_store(e2, st, o, name, args, kwargs):
+        if name == "values":
+            yield st, Opaque("sym_seq")
+        else:
+            raise Unsupported(f"own certificate store .{name}")
+    e.opaque_handlers["own_store"] = h_own_store
     e.opaque_attr = attr
     orig_sign = e.opaque_handlers.get("sign_service")
 
